@@ -142,6 +142,11 @@ func dirname(path string) string {
 }
 
 func realPath(p string) string {
+	// the empty name stands for an unresolvable path; EvalSymlinks("") would
+	// answer "." which the set lookup treats as a child of the root
+	if p == "" {
+		return ""
+	}
 	f, err := filepath.EvalSymlinks(p)
 	if err != nil {
 		return ""
